@@ -145,6 +145,56 @@ pub fn c13(ctx: &Ctx, begin: &mut dyn FnMut(J)) -> Outcome {
             chrom_ranges.push((lo, flat_bb.len()));
         }
     }
+    if class == "chromosomes_out_of_order_under_ALL" {
+        // the parallel source queues five chromosomes at a time: make sure disorder can also sit beyond them
+        let mut extra: Vec<&str> = CHROM_POOL.iter().copied().filter(|n| !sizes.contains_key(*n)).collect();
+        extra.sort_by(|a, b| a.as_bytes().cmp(b.as_bytes()));
+        let mut names: Vec<String> = sizes.keys().cloned().collect();
+        for n in extra {
+            if names.len() >= 8 {
+                break;
+            }
+            names.push(n.to_string());
+            sizes.insert(n.to_string(), 500);
+        }
+        names.sort_by(|a, b| a.as_bytes().cmp(b.as_bytes()));
+        // rebuild the flat lists in sorted chromosome order, keeping existing items
+        let mut new_bw = vec![];
+        let mut new_bb = vec![];
+        chrom_ranges.clear();
+        for n in &names {
+            let lo = if is_bw { new_bw.len() } else { new_bb.len() };
+            let mut have = false;
+            if is_bw {
+                for (c, v) in flat_bw.iter().filter(|(c, _)| c == n) {
+                    new_bw.push((c.clone(), *v));
+                    have = true;
+                }
+                if !have {
+                    for i in 0..3u32 {
+                        new_bw.push((n.clone(), Value { start: i * 5, end: i * 5 + 3, value: 1.0 + i as f32 }));
+                    }
+                }
+                chrom_ranges.push((lo, new_bw.len()));
+            } else {
+                for (c, v) in flat_bb.iter().filter(|(c, _)| c == n) {
+                    new_bb.push((c.clone(), v.clone()));
+                    have = true;
+                }
+                if !have {
+                    for i in 0..3u32 {
+                        new_bb.push((n.clone(), BedEntry { start: i * 5, end: i * 5 + 8, rest: "x".into() }));
+                    }
+                }
+                chrom_ranges.push((lo, new_bb.len()));
+            }
+        }
+        if is_bw {
+            flat_bw = new_bw;
+        } else {
+            flat_bb = new_bb;
+        }
+    }
     opts.sort_all = true;
     let nchrom = chrom_ranges.len();
     let (ci, cpos) = pick_pos(&mut r, nchrom);
